@@ -887,6 +887,18 @@ func (p *Parser) parsePrimaryExpression() (ast.Expression, error) {
 
 		// NOT followed by other expression (boolean negation)
 		// Parse at comparison level for proper precedence: NOT (a > b), NOT active
+		// NOT NOT NOT ... recurses without passing through parseExpression, so the
+		// nesting depth is accounted for here as well.
+		p.depth++
+		defer func() { p.depth-- }()
+		if p.depth > MaxRecursionDepth {
+			return nil, goerrors.RecursionDepthLimitError(
+				p.depth,
+				MaxRecursionDepth,
+				models.Location{Line: 0, Column: 0},
+				"",
+			)
+		}
 		expr, err := p.parseComparisonExpression()
 		if err != nil {
 			return nil, err
